@@ -35,6 +35,7 @@ mod fam_lender;
 mod fam_vbuild;
 mod fam_atomic;
 mod fam_chunks;
+mod fam_sliceseq;
 mod fam_rsbig;
 
 pub struct Ctx {
@@ -242,6 +243,7 @@ fn main() {
             "vbuild" => fam_vbuild::run(&ep, &mut ctx),
             "atomic" => fam_atomic::run(&ep, &mut ctx),
             "chunks" => fam_chunks::run(&ep, &mut ctx),
+            "sliceseq" => fam_sliceseq::run(&ep, &mut ctx),
             "rsbig" => fam_rsbig::run(&ep, &mut ctx),
             _ => {
                 eprintln!("unknown family {fam}");
